@@ -77,32 +77,35 @@ type Violation struct {
 
 // ChildResult is what a child writes when it finishes.
 type ChildResult struct {
-	Lane         string           `json:"lane"`
-	Child        int              `json:"child"`
-	Evaluations  int64            `json:"evaluations"`
-	Nontrivial   []uint64         `json:"nontrivial"` // distinct hashes
-	Counters     map[string]int64 `json:"counters"`
+	Lane         string              `json:"lane"`
+	Child        int                 `json:"child"`
+	Evaluations  int64               `json:"evaluations"`
+	Nontrivial   []uint64            `json:"nontrivial"` // distinct hashes
+	Counters     map[string]int64    `json:"counters"`
 	Distinct     map[string][]uint64 `json:"distinct"` // named distinct-sets (states, interleavings)
-	Samples      []any            `json:"samples"`
-	Violations   []Violation      `json:"violations"`
-	Inconclusive []string         `json:"inconclusive"`
-	Done         bool             `json:"done"`
+	Samples      []any               `json:"samples"`
+	Violations   []Violation         `json:"violations"`
+	Inconclusive []string            `json:"inconclusive"`
+	Done         bool                `json:"done"`
 }
 
 // Child is the per-process context.
 type Child struct {
-	Spec    *Spec
-	Lane    *Lane
-	Tier    string
-	Seed    int64
-	Idx     int
-	N       int
-	mu      sync.Mutex
-	res     ChildResult
-	nt      map[uint64]struct{}
-	dist    map[string]map[uint64]struct{}
-	journal *os.File
-	Data    any // lane-private
+	Spec     *Spec
+	Lane     *Lane
+	Tier     string
+	Seed     int64
+	Idx      int
+	N        int
+	mu       sync.Mutex
+	res      ChildResult
+	nt       map[uint64]struct{}
+	dist     map[string]map[uint64]struct{}
+	journal  *os.File
+	Data     any // lane-private
+	perKey   map[string]int
+	findings []Finding
+	unlisted int // violations not matched by a known finding (only these end a child early)
 }
 
 // Case is the context of one case.
@@ -216,12 +219,24 @@ func (c *Case) Violation(kind, sig, detail string, witness any) {
 	if witness != nil {
 		w, _ = json.Marshal(witness)
 	}
+	v := Violation{Property: c.Spec.ID, Lane: c.Lane.Name, Kind: kind, Sig: sig, Detail: detail,
+		Seed: c.Seed, Child: c.Idx, CaseIdx: c.Index, Tier: c.Tier, Witness: w}
 	c.mu.Lock()
-	if len(c.res.Violations) < 200 {
-		c.res.Violations = append(c.res.Violations, Violation{
-			Property: c.Spec.ID, Lane: c.Lane.Name, Kind: kind, Sig: sig, Detail: detail,
-			Seed: c.Seed, Child: c.Idx, CaseIdx: c.Index, Tier: c.Tier, Witness: w,
-		})
+	if c.perKey == nil {
+		c.perKey = map[string]int{}
+		c.findings = loadFindings()
+	}
+	key := kind + "|" + sig
+	c.perKey[key]++
+	listed := matchFinding(c.findings, &v) != nil
+	if !listed {
+		c.unlisted++
+	} else {
+		c.res.Counters["known_finding_observations"]++
+	}
+	// keep at most 5 witnesses per (kind, signature) and child: known findings must not flood the result or end the child
+	if c.perKey[key] <= 5 && len(c.res.Violations) < 400 {
+		c.res.Violations = append(c.res.Violations, v)
 	}
 	c.mu.Unlock()
 }
@@ -390,7 +405,7 @@ func runChild(spec *Spec, laneName, tier string, seed int64, idx, n int, out str
 		ch.res.Evaluations++
 		ch.mu.Unlock()
 		ch.mu.Lock()
-		nv := len(ch.res.Violations)
+		nv := ch.unlisted
 		ch.mu.Unlock()
 		if nv >= 25 && only < 0 {
 			ch.Count("stopped_early_after_25_violations", 1)
